@@ -472,13 +472,22 @@ impl<'a> Run<'a> {
     pub fn done(self, metrics: &mut Metrics) {
         let _ = metrics;
         let path = self.store.status_path();
-        let Ok(mut file) = fatal::create_file(&path) else {
+        // Write to a temporary file and move it into place so that the
+        // status file is never left empty or half-written.
+        let Ok(mut file) = self.store.tmp_file() else {
             return
         };
         if let Err(err) = StoredStatus::new(Time::now()).write(&mut file) {
             error!(
                 "Failed to write store status file {}: {}",
                 path.display(), err
+            );
+            return
+        }
+        if let Err(err) = file.persist(&path) {
+            error!(
+                "Failed to write store status file {}: {}",
+                path.display(), err.error
             );
         }
     }
@@ -498,7 +507,24 @@ impl<'a> Run<'a> {
         if let Some(dir) = path.parent() {
             fatal::create_dir_all(dir)?;
         }
-        fatal::write_file(&path, content)
+        // Write to a temporary file and move it into place so that a
+        // previously stored certificate is never left truncated.
+        let mut file = self.store.tmp_file()?;
+        if let Err(err) = file.write_all(content) {
+            error!(
+                "Fatal: failed to write file {}: {}",
+                file.path().display(), err
+            );
+            return Err(Failed)
+        }
+        if let Err(err) = file.persist(&path) {
+            error!(
+                "Failed to persist temporary file {} to {}: {}",
+                err.file.path().display(), path.display(), err.error,
+            );
+            return Err(Failed)
+        }
+        Ok(())
     }
 
     /// Accesses the repository for the provided RPKI CA.
